@@ -130,7 +130,9 @@ func parseValue(dec *json.Decoder) (any, error) {
 				}
 				m.Set(key, val)
 			}
-			_, _ = dec.Token() // consume '}'
+			if _, err := dec.Token(); err != nil { // consume '}'; a document cut off before it is not a value
+				return nil, err
+			}
 			return m, nil
 		case '[':
 			var arr []any
@@ -141,7 +143,9 @@ func parseValue(dec *json.Decoder) (any, error) {
 				}
 				arr = append(arr, val)
 			}
-			_, _ = dec.Token() // consume ']'
+			if _, err := dec.Token(); err != nil { // consume ']'
+				return nil, err
+			}
 			return arr, nil
 		}
 	default:
